@@ -136,7 +136,7 @@ fn main() {
 #[cfg(feature = "std")]
 pub fn dbg_long(a: &Args) {
     let n: usize = a.rest.first().and_then(|s| s.parse().ok()).unwrap_or(33000);
-    for variant in 0..5u64 {
+    for variant in 0..6u64 {
         let mut rng = util::Rng::new(1);
         let c = genp::gen_long(&mut rng, n, variant);
         let t = std::time::Instant::now();
